@@ -426,35 +426,38 @@ Fixpoint container_loop (m : mst) (anc : list table) (l : list sid) : mst * opti
 Definition add_containers (m : mst) (anc : list table) : mst * option err :=
   container_loop m anc (filter (fun s => is_container (hget (m_heap m) s)) (sids (m_other m))).
 
+(* _handle_symbol_clash, the part after "if old_sym.is_import: ..." *)
+Definition handle_clash_rename (m : mst) (anc : list table) (os : sid) : mst * option err :=
+  let oy := hget (m_heap m) os in
+  match lookup (m_self m) anc (s_name oy) with
+  | None => (m, Some EKey)
+  | Some ss =>
+    if is_unres oy && is_unres (hget (m_heap m) ss) then (m, None)
+    else
+      match next_available_name (m_self m) anc (s_name oy) false (Some (m_other m)) with
+      | None => (m, Some EFuel)
+      | Some nm =>
+        match rename_symbol (m_heap m) (m_other m) os nm with
+        | inl (h', Ot') => madd_self (mkM h' (m_self m) Ot') anc os
+        | inr ESymbol =>
+            match rename_symbol (m_heap m) (m_self m) ss nm with
+            | inr e => (m, Some e)
+            | inl (h', T') => madd_self (mkM h' T' (m_other m)) anc os
+            end
+        | inr e => (m, Some e)
+        end
+      end
+  end.
+
 (* _handle_symbol_clash *)
 Definition handle_clash (m : mst) (anc : list table) (os : sid) : mst * option err :=
-  let oy := hget (m_heap m) os in
-  match s_iface oy with
+  match s_iface (hget (m_heap m) os) with
   | IImport c _ =>
       match lookup (m_self m) anc (s_name (hget (m_heap m) c)) with
       | None => (m, Some EKey)
       | Some sc => if Nat.eqb sc c then (m, None) else (m, Some EInternal)
       end
-  | _ =>
-    match lookup (m_self m) anc (s_name oy) with
-    | None => (m, Some EKey)
-    | Some ss =>
-      if is_unres oy && is_unres (hget (m_heap m) ss) then (m, None)
-      else
-        match next_available_name (m_self m) anc (s_name oy) false (Some (m_other m)) with
-        | None => (m, Some EFuel)
-        | Some nm =>
-          match rename_symbol (m_heap m) (m_other m) os nm with
-          | inl (h', Ot') => madd_self (mkM h' (m_self m) Ot') anc os
-          | inr ESymbol =>
-              match rename_symbol (m_heap m) (m_self m) ss nm with
-              | inr e => (m, Some e)
-              | inl (h', T') => madd_self (mkM h' T' (m_other m)) anc os
-              end
-          | inr e => (m, Some e)
-          end
-        end
-    end
+  | _ => handle_clash_rename m anc os
   end.
 
 Definition add_one (m : mst) (anc : list table) (skip : list sid) (os : sid) : mst * option err :=
